@@ -46,7 +46,7 @@ TRANSITIONS = ['text>text', 'text>src', 'src>src', 'src>want', 'src>text', 'want
 def required_cells(tier):
     return (['shape:' + s for s in SHAPES] + ['want:' + w for w in WANTS] + ['trans:' + t for t in TRANSITIONS] +
             ['indent:0', 'indent:2', 'indent:4', 'indent:8', 'dedent-prose', 'corpus:repo', 'tabs', 'program-layout',
-             'reindent-after-want:less', 'reindent-after-want:more'] +
+             'reindent-after-want:less', 'reindent-after-want:more', 'whitespace-only-line'] +
             (['corpus:stdlib'] if tier == 'thorough' else []))
 
 
@@ -144,7 +144,12 @@ def gen_docstring(rng, ctx=None):
                 out.append(('text', ' ' * rng.choice([0, cur]) + rng.choice(PROSE)))
             prev = 'text'
         elif kind == 'blank':
-            out.append(('text', ''))
+            # an empty line, or blanks only (more of them than the block's indentation)
+            if rng.random() < 0.35:
+                out.append(('text', ' ' * (last + rng.choice([1, 3, 4]))))
+                cells.append('whitespace-only-line')
+            else:
+                out.append(('text', ''))
             prev = 'text'
         elif kind == 'dedent_prose':
             # de-indented line directly under source or want: text by definition
